@@ -1,3 +1,4 @@
 import FeemsProofs.Prelude
-import FeemsProofs.Lemmas.FuelLemmas
+import FeemsProofs.Lemmas.KVLemmas
 import FeemsProofs.C18
+import FeemsProofs.C19
